@@ -6,6 +6,7 @@ import (
 	"go/types"
 	"sort"
 	"strings"
+	"sync"
 
 	"golang.org/x/tools/go/ssa"
 )
@@ -59,27 +60,29 @@ type Oblig struct {
 }
 
 type Trans struct {
-	P        *Prog
-	env      *TypeEnv
-	top      *ssa.Function
-	topC     *Contract
-	cmds     []string
-	obls     []*Oblig
-	nfresh   int
-	uses     map[string]bool
-	notes    []string // abstractions applied (reported in evidence)
-	errs     []string
-	fnIDs    map[*ssa.Function]int
-	nframes  int
-	stack    []*ssa.Function
-	ghosts   map[string]string // top-level ghost params -> term
-	obNames  map[string]int
-	evalTerms []string
-	trustedUsed map[string]bool
-	underContract map[string]bool
-	reqOld   *State
-	pendingFinals map[int]string
+	P                *Prog
+	env              *TypeEnv
+	top              *ssa.Function
+	topC             *Contract
+	cmds             []string
+	obls             []*Oblig
+	nfresh           int
+	uses             map[string]bool
+	notes            []string // abstractions applied (reported in evidence)
+	errs             []string
+	fnIDs            map[*ssa.Function]int
+	nframes          int
+	stack            []*ssa.Function
+	ghosts           map[string]string // top-level ghost params -> term
+	obNames          map[string]int
+	evalTerms        []string
+	trustedUsed      map[string]bool
+	underContract    map[string]bool
+	reqOld           *State
+	pendingFinals    map[int]string
 	pendingMaintains []func(State) string
+	hdrOnce          sync.Once
+	hdr              string
 }
 
 func NewTrans(P *Prog) *Trans {
@@ -107,7 +110,15 @@ func (t *Trans) define(sort, hint, term string) string {
 		return term
 	}
 	n := t.fresh(hint)
-	t.emit(fmt.Sprintf("(define-fun %s () %s %s)", n, sort, term))
+	if sort == "Bool" || strings.HasPrefix(sort, "(_ ") {
+		t.emit(fmt.Sprintf("(define-fun %s () %s %s)", n, sort, term))
+		return n
+	}
+	// values that may occur in quantifier patterns (references, slices, heap versions, alloc
+	// counters) are named constants with a defining equation rather than macros, so that a
+	// pattern never expands to a term with Boolean structure
+	t.emit(fmt.Sprintf("(declare-const %s %s)", n, sort))
+	t.emit(fmt.Sprintf("(assert (= %s %s))", n, term))
 	return n
 }
 
@@ -651,6 +662,34 @@ func (t *Trans) enterLoop(fr *Frame, lr *loopRec, reach string, pre State, phiPr
 	}
 	// automatic frame invariants for the enclosing function's frame condition
 	lr.autoInv = t.autoFrameInvariants(fr, lr)
+	// range-over-slice loops: the hidden index stays within [-1, LENMAX) and the loop terminates
+	var rangePhi *ssa.Phi
+	for _, in := range lr.header.Instrs {
+		if phi, ok := in.(*ssa.Phi); ok && phi.Comment == "rangeindex" {
+			rangePhi = phi
+		}
+	}
+	if rangePhi != nil {
+		rp := rangePhi
+		lr.autoInv = append(lr.autoInv, autoInv{label: "rangeindex", build: func(sc *SpecCtx) string {
+			v := fr.vals[rp]
+			if sc.phiOv != nil {
+				if o, ok := sc.phiOv[rp]; ok {
+					v = o
+				}
+			}
+			return fmt.Sprintf("(and (bvsle #xffffffffffffffff %s) (bvslt %s LENMAX))", v, v)
+		}})
+		if lr.spec == nil {
+			lr.spec = &LoopSpec{}
+		}
+		if lr.spec.Decreases == nil {
+			lr.spec = &LoopSpec{Invariants: lr.spec.Invariants, Decreases: &Clause{Kind: "decreases", Expr: mustSx("(bvsub LENMAX rangeindex)"), Src: "auto"}}
+		}
+		if lr.spec != nil {
+			invs = lr.spec.Invariants
+		}
+	}
 	scPre := &SpecCtx{t: t, fr: fr, st: pre, old: fr.entrySt, at: lr.header, phiOv: phiPre}
 	for _, inv := range invs {
 		g := scPre.expandBool(inv.Expr)
